@@ -30,6 +30,10 @@ CLASSES = {
     'P3': (['x', 'y', 'z'], ['x', 'y', 'z']),
     'DC': (['a', 'b'], ['a', 'b']),
     'LA': (['x', 'y'], ['x', 'y', 'w']),
+    # boundary lengths of __match_args__: exactly one entry (hand-written and dataclass-generated) and the empty tuple
+    'One': (['a'], ['a', 'b']),
+    'DC1': (['a'], ['a']),
+    'Zero': ([], ['a']),
 }
 BUILTIN_SELF = ['int', 'str', 'float', 'bytes', 'list', 'tuple', 'dict', 'bool', 'set', 'frozenset', 'bytearray']
 BUILTIN_EXAMPLE = {'int': '5', 'str': "'s'", 'float': '2.5', 'bytes': "b'z'", 'list': '[1, 2]', 'tuple': '(1, 2)',
@@ -78,6 +82,26 @@ class P3(Point):
 class DC:
     a: object
     b: object = 0
+
+
+class One:
+    __match_args__ = ('a',)
+
+    def __init__(self, a, b=0):
+        self.a = a
+        self.b = b
+
+
+@dataclasses.dataclass
+class DC1:
+    a: object
+
+
+class Zero:
+    __match_args__ = ()
+
+    def __init__(self, a=0):
+        self.a = a
 
 
 class LA:
@@ -334,7 +358,7 @@ class Gen:
             npos = min(npos, len(posnames) + (1 if r.random() < 0.1 else 0))
             pos = [self.pattern(depth + 1, closed=closed) for _ in range(npos)]
             kw = []
-            avail = [n for n in kwnames if n not in posnames[:npos]] if r.random() < 0.9 else list(kwnames)
+            avail = [n for n in kwnames if n not in posnames[:npos]] if r.random() < 0.85 else list(kwnames)
             for n in avail:
                 if r.random() < 0.4:
                     kw.append((n, self.pattern(depth + 1, closed=closed)))
@@ -371,6 +395,41 @@ class Gen:
                 inner = ('lit', t, e) if r.random() < 0.7 else ('wild',)
             return ('as', inner, self.fresh())
         raise AssertionError(k)
+
+
+def boundary_class_pattern(g, j):
+    """stratified class patterns at the edges of the run-time validation (`match_class` in CPython): every class of CLASSES
+    (so every length of __match_args__: 0, 1, 2, 3, hand-written, inherited, dataclass, logging) x mode
+      0 'dup'      an attribute given by a positional AND by a keyword sub-pattern (TypeError when an instance arrives)
+      1 'too-many' one positional sub-pattern more than __match_args__ has entries (TypeError likewise)
+      2 'full'     all positionals used, the keywords name only the remaining attributes (valid control)
+    j enumerates the cells deterministically; the sub-patterns are random."""
+    r = g.rng
+    allc = list(CLASSES)
+    c = allc[j % len(allc)]
+    mode = (j // len(allc)) % 3
+    posnames, kwnames = CLASSES[c]
+    if mode == 0 and not posnames:
+        mode = 1
+    if mode == 0:
+        npos = r.randint(1, len(posnames))
+        dup = r.choice(posnames[:npos])
+        kwn = [dup] + [n for n in kwnames if n not in posnames[:npos] and r.random() < 0.4]
+        r.shuffle(kwn)
+    elif mode == 1:
+        npos = len(posnames) + 1
+        kwn = [n for n in kwnames if n not in posnames and r.random() < 0.4]
+    else:
+        npos = len(posnames)
+        kwn = [n for n in kwnames if n not in posnames]
+    sub = lambda: g.pattern(g.maxdepth - 1) if r.random() < 0.7 else ('cap', g.fresh())
+    p = ('cls', c, [sub() for _ in range(npos)], [(n, sub()) for n in kwn])
+    if r.random() < 0.3:
+        items = [p, ('cap', g.fresh())]
+        if r.random() < 0.5:
+            items.reverse()
+        p = ('seq', items, None, '[]')
+    return p, '%s/args%d/%s' % (c, len(posnames), ('dup', 'too-many', 'full')[mode])
 
 
 def render(p):
@@ -547,6 +606,12 @@ def example(p, rng, exact=True):
             return 'M.P3(%s, %s, %s)' % (attrs.get('x', '0'), attrs.get('y', '0'), attrs.get('z', '0'))
         if c == 'DC':
             return 'M.DC(%s, %s)' % (attrs.get('a', '0'), attrs.get('b', '0'))
+        if c == 'One':
+            return 'M.One(%s, %s)' % (attrs.get('a', '0'), attrs.get('b', '0'))
+        if c == 'DC1':
+            return 'M.DC1(%s)' % attrs.get('a', '0')
+        if c == 'Zero':
+            return 'M.Zero(%s)' % attrs.get('a', '0')
         if c == 'LA':
             if not exact and attrs and rng.random() < 0.5:
                 attrs.pop(sorted(attrs)[0])
@@ -564,7 +629,7 @@ GENERIC_SUBJECTS = [
     '0', '1', '-1', '2**70', '1.5', '-0.0', '(1+2j)', 'True', 'False', 'None', "'a'", "'abc'", "''", "b'a'", "b'abc'",
     "bytearray(b'ab')", '[]', '[1]', '[1, 2]', '[1, 2, 3]', '(1, 2)', '()', '[[1, 2], 3]', "['a', 'b']", 'range(3)',
     'collections.deque([1, 2])', "{'a': 1}", "{'a': 1, 'b': 2}", '{}', '{1: 2, None: 3}', "M.DictSub({'a': 1})",
-    'M.Point(1, 2)', 'M.P3(1, 2, 3)', 'M.DC(1, 2)', 'M.DC([1, 2], {"a": 1})', 'M.LA(x=1, y=2)', 'M.LA(x=1)', 'M.LARaise(x=1)',
+    'M.Point(1, 2)', 'M.P3(1, 2, 3)', 'M.DC(1, 2)', 'M.DC([1, 2], {"a": 1})', 'M.One(1, 2)', 'M.DC1(1)', 'M.Zero()', 'M.LA(x=1, y=2)', 'M.LA(x=1)', 'M.LARaise(x=1)',
     'M.BadArgs()', 'M.DupArgs()', 'M.NoArgs()', 'M.StrArgs()', 'M.Color.RED', 'M.Color.GREEN', 'M.EqLog(1)', "M.EqLog('a')",
     'M.EqRaise()', 'M.Seq([1, 2])', 'M.Seq([])', 'M.RegSeq([1, 2])', 'M.NotSeq([1, 2])', "M.Map({'a': 1})", "M.MapGetLog({'a': 1, 'b': 2})", "M.MapGetRaise({'a': 1})", "M.RegMap({'a': 1})",
     "M.StrSub('a')", 'M.IntSub(1)', 'M.ListSub([1, 2])', 'M.TupSub((1, 2))', "types.MappingProxyType({'a': 1})",
@@ -573,14 +638,26 @@ GENERIC_SUBJECTS = [
 ]
 
 
+BOUNDARY_EVERY = 10
+
+
 def gen_function(rng, idx, ncases_max=4, maxdepth=3):
-    """returns dict {name, src, cases: [{pattern, names, guard}], kinds}"""
+    """returns dict {name, src, cases: [{pattern, names, guard}], kinds}; every BOUNDARY_EVERY-th function carries one
+    stratified boundary class pattern (see boundary_class_pattern) in one of its cases"""
     g = Gen(rng, maxdepth)
     ncases = rng.randint(1, ncases_max)
     cases = []
+    blabel = None
+    bcase = None
+    if idx % BOUNDARY_EVERY == BOUNDARY_EVERY // 2:
+        # mostly the first case, so that earlier cases do not keep the subjects away from it
+        bcase = 0 if rng.random() < 0.6 else rng.randrange(ncases)
     for ci in range(ncases):
         last = ci == ncases - 1
-        p = g.pattern(0)
+        if ci == bcase:
+            p, blabel = boundary_class_pattern(g, idx // BOUNDARY_EVERY)
+        else:
+            p = g.pattern(0)
         # irrefutable patterns are only allowed in the last case (or with a guard)
         guard = None
         nm = names(p)
@@ -612,7 +689,7 @@ def gen_function(rng, idx, ncases_max=4, maxdepth=3):
     for c in cases:
         features(c['pattern'], feats)
     return {'name': name, 'src': src, 'cases': cases, 'kinds': sorted(kinds), 'wild_as': '_ as ' in src,
-            'features': sorted(feats)}
+            'features': sorted(feats), 'boundary_cell': blabel}
 
 
 class _Stub:
